@@ -198,6 +198,7 @@ def encode(segs, style="explicit", tag=b"TDSm", with_data=True, unknown_last=Fal
         cur = [(o["path"], index_of(o, seg.big), o["has_data"] and o["tcode"] is not None) for o in seg.objects]
         toc = B.TOC_META | (B.TOC_RAW if data else 0) | (B.TOC_INTERLEAVED if seg.interleaved else 0)
         objects = None
+        # style "restate": like incremental, but an index is always restated in full, never 'same as before'
         if style == "explicit" or prev_list is None:
             toc |= B.TOC_NEW
             objects = [{"path": o["path"], "index": index_of(o, seg.big), "props": o["props"]} for o in seg.objects]
@@ -211,7 +212,7 @@ def encode(segs, style="explicit", tag=b"TDSm", with_data=True, unknown_last=Fal
                     old = dict((pp, (ii, hh)) for (pp, ii, hh) in prev_list).get(p)
                     if old is not None and old == (ix, has) and not o["props"]:
                         continue                                   # unchanged: omitted
-                    if has and last_index.get(p) == ix and ix != "none":
+                    if has and last_index.get(p) == ix and ix != "none" and style != "restate":
                         objects.append({"path": p, "index": "same", "props": o["props"]})
                     elif not has:
                         objects.append({"path": p, "index": "none", "props": o["props"]})
